@@ -130,7 +130,7 @@ def max_days_in_month(month, year):
 def normalize_year(y, m, d):
     """taking into account negative month and day values"""
     if not (1 <= m <= 12):
-        y_plus = math.floor((m - 1) / 12)
+        y_plus = (m - 1) // 12
         y += y_plus
         m -= y_plus * 12
 
@@ -504,9 +504,9 @@ def months_inc(start_date, months, eomonth=False):
     months = coerce_to_number(months, convert_all=True)
     if isinstance(start_date, str) or isinstance(months, str):
         return VALUE_ERROR
-    if start_date < 0:
+    if start_date < 0 or start_date >= DATE_MAX_INT:
         return NUM_ERROR
-    y, m, d = date_from_int(start_date)
+    y, m, d = date_from_int(math.floor(start_date))
     y, m, _ = normalize_year(y, m + math.trunc(months), 1)
     if not (1900 <= y <= 9999):
         return NUM_ERROR
